@@ -8,7 +8,7 @@ out=seeded/MATRIX.md
 echo "| seed | property | check exit | what the check reported |" > $out.tmp
 echo "|---|---|---|---|" >> $out.tmp
 if [ -n "$MERGE" ] && [ -f $out ]; then
-  pat=$(printf '%s\n' "${ids[@]}" | sed 's/^/^| /; s/$/ |/' | paste -sd'|')
+  pat=$(printf "%s\n" "${ids[@]}" | sed "s/^/^[|] /; s/$/ [|]/" | paste -sd"|")
   tail -n +3 $out | grep -vE "$pat" >> $out.tmp
 fi
 for id in "${ids[@]}"; do
